@@ -434,7 +434,7 @@ func TestVerif_C12(t *testing.T) {
 		if bad > 0 && len(valid) > 0 {
 			rep.Nontrivial(strings.Join(classes, ","))
 		}
-		if i < 2 {
+		if rep.WantSample() {
 			rep.Sample(map[string]any{"frame_classes": classes[:min(12, len(classes))], "first_frames": firstN(frames, 4), "rejections": describeServer(rejections)[:min(4, len(rejections))]})
 		}
 		conn.Close(websocket.StatusNormalClosure, "")
